@@ -18,7 +18,7 @@ LISTED_SCALARS = (numbers.Number, str, bytes, type(None), dt.date, dt.datetime)
 def listed(v):
     if isinstance(v, LISTED_SCALARS):
         return True
-    if isinstance(v, (list, tuple)):
+    if isinstance(v, (list, tuple, set, frozenset)):
         return all(listed(x) for x in v)
     if isinstance(v, dict):
         return all(listed(k) and listed(x) for k, x in v.items())
@@ -29,10 +29,15 @@ def _elementwise(a, b):
     """Strict element-by-element equality (no identity shortcut), for listed values only."""
     if isinstance(a, (list, tuple)):
         return type(a) is type(b) and len(a) == len(b) and all(_elementwise(x, y) for x, y in zip(a, b))
+    if isinstance(a, (set, frozenset)):
+        return type(a) is type(b) and a == b
     if isinstance(a, dict):
+        import collections
+        if isinstance(a, collections.OrderedDict) and isinstance(b, collections.OrderedDict) and list(a) != list(b):
+            return False        # the same items in a different order are a different OrderedDict
         return (type(a) is type(b) and len(a) == len(b) and
                 all(k in b and _elementwise(v, b[k]) for k, v in a.items()))
-    if isinstance(b, (list, tuple, dict)):
+    if isinstance(b, (list, tuple, dict, set, frozenset)):
         return False
     return bool(a == b)
 
@@ -45,7 +50,7 @@ def eq3(a, b):
             strict = _elementwise(a, b)
         except Exception:
             return None
-        if isinstance(a, (list, tuple, dict)) or isinstance(b, (list, tuple, dict)):
+        if isinstance(a, (list, tuple, dict, set, frozenset)) or isinstance(b, (list, tuple, dict, set, frozenset)):
             if type(a) is not type(b):
                 return False
             if py != strict:
